@@ -70,6 +70,8 @@ def check(ctx) -> None:
     r612(ctx)
     r613(ctx)
     r614(ctx, cg)
+    r615(ctx, cg)
+    r616(ctx, cg)
     ctx.extra_coverage['call_graph'] = {
         'functions': len(cg.funcs), 'call_sites_resolved': cg.resolved,
         'call_sites_unresolved': cg.unresolved,
@@ -1715,3 +1717,130 @@ def _lf_terminated_argument(proj, f, pname: str) -> str | None:
     return (f'all {len(sites)} caller(s) pass the result of '
             f'read_continuation(), which ends with a line readline() '
             f'returned only after seeing its LF')
+
+
+# demonstrated on CPython 3.12 (triage/test_c06_undecodable_header.py and a
+# token fuzz of HeaderRegistry(): counts per 150000 values ValueError 2064,
+# IndexError 1014, AttributeError 309, TypeError 22, UnicodeDecodeError 10,
+# UnboundLocalError 1)
+STDLIB_HEADER_RAISES = ('UnicodeDecodeError', 'UnboundLocalError',
+                        'IndexError', 'AttributeError', 'TypeError')
+
+
+def r615(ctx, cg) -> None:
+    """Frozen may-raise fact about the standard library (demonstrated in
+    triage/test_c06_undecodable_header.py): calling an
+    email.headerregistry.HeaderRegistry on a header value can raise
+    UnicodeDecodeError (MimeParameters.params decodes RFC 2231 pieces with
+    the declared charset and handles only LookupError/UnicodeEncodeError).
+    The header bytes are the client's (APPEND), so every such call needs a
+    handler for it where it is made."""
+    R = ctx.rule('R6.15', 'the stdlib header parser is called on message '
+                 'bytes only under a handler for what it raises', 1)
+    es = Escapes(ctx.proj, cg)
+    n = 0
+    for f in ctx.proj.all_funcs('pymap/'):
+        if f.rel.startswith(('pymap/admin/', 'pymap/backend/redis/')):
+            continue
+        for c in calls_in(f.node):
+            fn = c.func
+            reg = False
+            if isinstance(fn, ast.Attribute) and isinstance(
+                    fn.value, ast.Name) and fn.value.id in ('self', 'cls') \
+                    and f.cls is not None:
+                pa = f.cls.find_attr(fn.attr)
+                reg = bool(pa) and isinstance(pa[1], ast.Call) and \
+                    call_name(pa[1]) == 'HeaderRegistry'
+            elif isinstance(fn, ast.Call) and \
+                    call_name(fn) == 'HeaderRegistry':
+                reg = True
+            elif isinstance(fn, ast.Name):
+                reg = any(isinstance(v, ast.Call)
+                          and call_name(v) == 'HeaderRegistry'
+                          for v in resolve_local(f, fn)
+                          if v is not None and v is not fn)
+            if not reg:
+                continue
+            n += 1
+            R.check(all(es.caught(f, c, x) for x in STDLIB_HEADER_RAISES),
+                    f, c,
+                    f'{f.qualname}: `{txt(c)[:50]}` under a ValueError '
+                    f'handler',
+                    'the email package raises UnicodeDecodeError for some '
+                    'header values (Content-Type: text/plain; '
+                    'name*0*=utf-7\'\'+AO; name*1*=k-) and nothing here '
+                    'handles it (or only some of the classes it raises: '
+                    '`From: a@[ ` is an UnboundLocalError): APPEND parses '
+                    'Content-Type at once, so one APPEND of such a message '
+                    '-> * BYE [SERVERBUG]; with it stored, every FETCH '
+                    'ENVELOPE/BODYSTRUCTURE does the same',
+                    'handled where it is called')
+    if n == 0:
+        raise AnchorError('no call of an email HeaderRegistry found: the '
+                          'header parser moved, re-audit R6.15')
+
+
+def _single_address_reads(fnode, src_imports: bool):
+    """`.address` reads on a value known to be an email SingleAddressHeader:
+    under an isinstance test for it, or through a parameter/variable whose
+    annotation names it."""
+    if not src_imports:
+        return []
+    ann = set()
+    for a in ast.walk(fnode):
+        if isinstance(a, ast.arg) and a.annotation is not None and \
+                'SingleAddressHeader' in txt(a.annotation):
+            ann.add(a.arg)
+        if isinstance(a, ast.AnnAssign) and isinstance(a.target, ast.Name) \
+                and 'SingleAddressHeader' in txt(a.annotation):
+            ann.add(a.target.id)
+    tested = {txt(c.args[0]) for c in ast.walk(fnode)
+              if isinstance(c, ast.Call) and call_name(c) == 'isinstance'
+              and len(c.args) == 2
+              and 'SingleAddressHeader' in txt(c.args[1])}
+    # loop variables over an annotated sequence
+    for l in ast.walk(fnode):
+        if isinstance(l, (ast.For, ast.comprehension)) and \
+                isinstance(l.target, ast.Name) and \
+                names_in(l.iter) & ann:
+            ann.add(l.target.id)
+    out = []
+    for x in ast.walk(fnode):
+        if isinstance(x, ast.Attribute) and x.attr == 'address' and \
+                isinstance(x.ctx, ast.Load) and (
+                    txt(x.value) in tested or txt(x.value) in ann):
+            out.append(x)
+    return out
+
+
+def r616(ctx, cg) -> None:
+    """Frozen may-raise fact about the standard library:
+    email.headerregistry.SingleAddressHeader.address raises ValueError unless
+    the header holds exactly one address (`Sender: a@b, c@d`, `Sender: x:;`).
+    The envelope is rendered while the FETCH line is being written."""
+    R = ctx.rule('R6.16', 'SingleAddressHeader.address is read only under a '
+                 'ValueError handler', 1)
+    es = Escapes(ctx.proj, cg)
+    n = 0
+    for f in ctx.proj.all_funcs('pymap/'):
+        if f.rel.startswith(('pymap/admin/', 'pymap/backend/redis/')):
+            continue
+        n += 1
+        for x in _single_address_reads(
+                f.node, 'SingleAddressHeader' in f.module.src):
+            R.check(es.caught(f, x, 'ValueError'), f, x,
+                    f'{f.qualname}: `{txt(x)}` under a ValueError handler',
+                    f'`{txt(x)}` raises ValueError when the header does not '
+                    f'hold exactly one address, and nothing here handles '
+                    f'it: APPEND a message with `Sender: a@b, c@d`, then '
+                    f'FETCH n ENVELOPE -> `* n FETCH (ENVELOPE * BYE '
+                    f'[SERVERBUG]` (raised while the line is written)')
+    R.ok(None, None, f'{n} functions scanned',
+         'no unguarded SingleAddressHeader.address read')
+    import os
+    tree = ast.parse(open(os.path.join(VERIF, 'fixtures',
+                                       'r616_positive.py')).read())
+    hits = sum(len(_single_address_reads(x, True)) for x in ast.walk(tree)
+               if isinstance(x, ast.FunctionDef))
+    R.check(hits == 2, None, None, 'positive fixture still matches',
+            f'fixtures/r616_positive.py: {hits} read(s) found, expected 2')
